@@ -2,6 +2,7 @@
 from __future__ import annotations
 
 import ast
+import re
 from fractions import Fraction
 
 from ..effects import expr_path
@@ -214,6 +215,7 @@ def analyse_loss(ck, repo, nf: NF, qual: str, spec: dict, env_extra=None, via=No
         want_w = [spec["weight"]] if spec.get("weight") else []
         ck.ob("R5-regression-form", qual, f"{tag}:weights", wnames == want_w, f"per-sample weights {wnames}", "" if wnames == want_w else f"documented weights: {want_w}", where)
         P, rest = split_pt(nf, s["X"], theta)
+        _readable_prediction(nf, P, qual, theta)
         # exactly one prediction term with coefficient +-1
         okp = len(P.terms) == 1 and list(P.terms.values())[0] in (1, -1)
         ck.ob("R4-stop-gradient", qual, f"{tag}:single-differentiable-term", okp, f"terms depending differentiably on `{theta}`: {P.canon()[:120]}",
@@ -260,7 +262,18 @@ def analyse_loss(ck, repo, nf: NF, qual: str, spec: dict, env_extra=None, via=No
     return sites, Ts
 
 
+def _readable_prediction(nf, P, site, theta):
+    """The split into prediction / target was made on terms the engine has read: no term at all, or a term that is a record value /
+    opaque comprehension, means the prediction is not visible here (undecided), not that the semi-gradient is wrong."""
+    if not P.terms:
+        raise AnalysisError(f"{site}: no term of the regression depends differentiably on `{theta}` as far as the normal form shows (unrecognised form)")
+    for a in P.atoms():
+        if "⟦" in a or nf.meta.get(a, {}).get("record") or re.match(r"(⊥)?rl_blox\.[\w.]+\._?[A-Z]\w*\(", a):
+            raise AnalysisError(f"{site}: the differentiable part `{a[:80]}` is an unread value (record / comprehension): unrecognised form")
+
+
 def run(ck, repo: Repo, tier: str):
+    ck.opaque_is_unread = True      # a loss term that is an opaque comprehension / record value has not been read by the normal-form engine
     nf = NF(repo, no_inline={"rl_blox.blox.losses.huber_loss", "rl_blox.blox.return_estimates.discounted_n_step_return"}, inline_depth=4 if tier == "quick" else 6)
     nf.expand_squares = False
     nf.track_sg = True
@@ -353,6 +366,7 @@ def _td7(ck, repo, nf):
         ck.ob("R5-regression-form", q, f"{tag}:delta", okd, f"delta = {x['delta'].canon() if x['delta'] is not None else None}", "" if okd else "Huber threshold must be min_priority", where)
         ck.ob("R5-regression-form", q, f"{tag}:unit-coefficient", x["coef"] == 1 and not x["weights"], f"coefficient {x['coef']}, weights {x['weights']}", "" if (x["coef"] == 1 and not x["weights"]) else "scaled / weighted regression term", where)
         P, rest = split_pt(nf, x["X"], theta_atom)
+        _readable_prediction(nf, P, q, theta_atom)
         okp = len(P.terms) == 1 and list(P.terms.values())[0] in (1, -1)
         ck.ob("R4-stop-gradient", q, f"{tag}:single-differentiable-term", okp, f"terms differentiable in `{theta_atom}`: {P.canon()[:100]}", "" if okp else "target side depends differentiably on the critic", where)
         if not okp:
@@ -398,6 +412,7 @@ def _mrq(ck, repo, nf):
         okk = x["kind"] == "huber_abs" and x["delta"] is not None and x["delta"].canon() == "1" and x["coef"] == 1 and not x["weights"]
         ck.ob("R5-regression-form", q, f"{tag}:kind", okk, f"{x['kind']} delta={x['delta'].canon() if x['delta'] is not None else None} coef={x['coef']}", "" if okk else "documented: Huber(|P - T|, 1.0), unit weight", where)
         P, rest = split_pt(nf, x["X"], "q")
+        _readable_prediction(nf, P, q, "q")
         okp = len(P.terms) == 1 and list(P.terms.values())[0] in (1, -1)
         ck.ob("R4-stop-gradient", q, f"{tag}:single-differentiable-term", okp, f"{P.canon()[:100]}", "" if okp else "target side depends differentiably on q", where)
         if not okp:
